@@ -273,8 +273,13 @@ var _ utils.PriorityQueue
 //@ at call Hnsw).searchLevel
 //@ requires [C01 beam-entry-live] $arg2 != nil && $arg2.deleted != 1
 //@ end
+//@ ghost beam int = 0
+//@ at call priorityQueue).Len
+//@ set beam = $ret0
+//@ end
 //@ requires [C01 entry] epLive(this)
 //@ ensures [C01 atmostk] isnil(ret1) ==> len(ret0) <= k
+//@ ensures [C01 one-slot-per-beam-item] isnil(ret1) ==> len(ret0) <= beam
 //@ ensures [never-nil-nil] isnil(ret1) ==> !isnil(ret0)
 //@ modifies cells[utils.minPriorityQueue], cells[utils.maxPriorityQueue], mem[*utils.PriorityQueueItem]
 //@ loop 1
